@@ -67,7 +67,7 @@ func c03Scenario(prog string, free Result) *sched.Scenario {
 		}
 		fin := func(e *vsched.Execution) sched.Outcome {
 			o := sched.Outcome{Key: fmt.Sprintf("out=%q err=%q exit=%d", res.Out, res.Err, res.Exit), NonTrivial: true}
-			if e.Deadlock || len(e.Panics) > 0 {
+			if e.Deadlock || e.Livelock || len(e.Panics) > 0 {
 				return o
 			}
 			if !done {
